@@ -150,6 +150,7 @@ func injectBuiltInProps(
 	injectProps(object.BuiltInKernelObj, toPairs(props.KernelProps(ctn)), kernelNatives)
 	injectProps(object.BuiltInMatchObj, toPairs(props.MatchProps(ctn)))
 	injectProps(object.BuiltInMapObj, toPairs(props.MapProps(ctn)), mapNatives, iterableNatives)
+	injectProps(object.BuiltInFileNotFoundErr, toPairs(props.FileNotFoundErrProps(ctn)))
 	injectProps(object.BuiltInNameErr, toPairs(props.NameErrProps(ctn)))
 	injectProps(object.BuiltInNilObj, toPairs(props.NilProps(ctn)))
 	injectProps(object.BuiltInNoPropErr, toPairs(props.NoPropErrProps(ctn)))
